@@ -119,6 +119,33 @@ def native_check(seed=0, quick=True):
                 n += 1
                 if f:
                     fails.append(({"kind": kind, "observable": "estimator computed with torch.autograd.grad", "system": system}, f[:2]))
+        # re-entrant use: an observable whose estimator asks another observable (one that is part of the same System, or
+        # itself being evaluated by an outer call) for its statistics on the state, in the middle of the outer run
+        raw = st
+
+        class Nest(ObservableBase):
+            def __init__(self, other):
+                self.name, self.symbol, self.other, self.depth = "Nest", "N", other, 0
+
+            def apply(self, nn_state, samples):
+                if self.depth == 0:
+                    self.depth = 1
+                    try:
+                        self.other.statistics(raw, 6, num_chains=3, burn_in=1, steps=1)
+                    finally:
+                        self.depth = 0
+                return samples.sum(1) - 1.0
+        if kind != "mixed":
+            shared = SigmaZ()
+            for obs, system in (([shared, Nest(shared)], True), ([Nest(shared), shared], True), ([Nest(shared)], False)):
+                try:
+                    f = one_case(obs, st, 9, 4, 1, 1, system=system)
+                except Exception as e:                       # noqa: BLE001
+                    f = ["an observable that asks another one for its statistics during a run: %r" % (e,)]
+                n += 1
+                if f:
+                    fails.append(({"kind": kind, "observable": "asks another observable of the same run for its statistics", "system": system,
+                                   "order": [o.name for o in obs]}, f[:2]))
         for ow in (False, True):
             init = torch.tensor(rng.integers(0, 2, size=(4, 3)), dtype=torch.double)
             f = one_case([SigmaZ()], st, 10, 7, 2, 1, init=init, overwrite=ow)
